@@ -15,11 +15,23 @@ Enumerated:
   identity) — every rotation of the family through one ``OrbitalRotator`` (cache in use) against the
   reference, orthogonality, A(1)=1, and the composition law A(R1 R2)=A(R1)A(R2) for **all ordered pairs**
   of the family; the cache must give the same answers in reverse order and through ``irot``.
+  The "near" family holds pairs of *distinct* rotations 3e-3 ... 6e-3 rad apart (a small rotation next to the identity, a
+  proper and an improper generic rotation each with a slightly tilted neighbour; thorough: also a chain R, R.dR, R.dR^2 and a
+  neighbour of -1): they differ element-wise by ~30x the 1e-4 tolerance with which ``OrbitalRotator`` identifies rotations,
+  so each must get its own matrix.  The generic and near families are sent through one rotator in the listed order and through
+  a second, fresh rotator in the reverse order (the member of a pair that comes second is the one a too generous cache would
+  answer with its neighbour's matrix); the products of the composition law land next to (but, checked by the harness, never
+  inside the tolerance band of) rotations evaluated before.
 * kind "local": shell x 8 rotations x all 9 ordered pairs of local frames {I, two rotated frames} (+ the
   co-rotated frame B2 = B1 R^T used by ``Projection(rotate_basis=True)``), against the reference;
   composition through an intermediate frame for the cheap shells.
 * kind "dwann": 6 space groups (symmorphic, non-symmorphic, magnetic) x site sets x orbitals x local-frame
-  mode x spinor: orbit = brute-force orbit; ``atommap``/``T`` = brute-force image and lattice vector
+  mode x spinor (frame modes: the global frame on every site; one custom frame ``zaxis/xaxis`` shared by all sites of a multi-site
+  orbit, ``rotate_basis=False``; a custom frame on a single-site orbit; frames co-rotated with the sites, default or custom axes;
+  explicit ``basis_list`` whose frames differ from site to site by a 3e-3 rad tilt, so that one rotator is asked for distinct
+  rotations B2 R B1^T that are only ~1e-3 ... 9e-3 rad apart): the frames are taken from ``Projection.basis_list`` and the
+  reference block is A_ref(R; B1, B2) of the least-squares model above (for a frame B shared by all sites that is the matrix of
+  B R B^T, not of R); orbit = brute-force orbit; ``atommap``/``T`` = brute-force image and lattice vector
   (centre image: orbit[jp] = symop(orbit[ip]) + T); ``get_on_points`` at 3 k-points (+ a reciprocal vector):
   unitary, block (jp,ip) non-zero iff jp is the image of ip, block = exp(2 pi i gk.T) * (A_ref (x) S);
   and the representation law D(gk;h) D(k;g)^(*) = exp(-2 pi i hgk.t_L) D(k;hg) (up to the spinor sign) for all
@@ -31,23 +43,36 @@ import numpy as np
 
 ID = "C21"
 LEVEL = "exploration"
-RULE = ("cases = family(shell x rotation family), local(shell), dwann(structure x site x orbital x frame mode x spinor); each "
-        "case runs all rotations / all ordered pairs / all symmetry operations and k-points inside. non-trivial: a family/local "
+RULE = ("cases = family(shell x rotation family in {generic, near, D6h, Oh}), local(shell), dwann(structure x site x orbital x frame "
+        "mode x spinor; frame mode in {same, same:<axes>, rot, rot:<axes>, tilt}); each "
+        "case runs all rotations (generic/near: in both orders) / all ordered pairs / all symmetry operations and k-points inside. "
+        "non-trivial: a family/local "
         "case in which at least one non-identity operation leaves the orbital set closed (key = shell, family), a dwann case in "
         "which every block is closed and the orbit or the group is non-trivial (key = structure, site, orbital, mode, spinor); "
         "cases whose orbital set is not closed under some operation are counted trivial (only 'no exception' is required)")
 ASSUMPTIONS = [
-    "rotations: the 48 of O_h, the 24 of D_6h and 12 generic ones (+identity); 'all rotations in O(3)' is represented by these "
-    "(the matrices are polynomial in the entries of R, the generic elements test the polynomial, the groups test every "
-    "crystallographic value)",
-    "rotations closer than the cache tolerance of OrbitalRotator (1e-4) are not in the alphabet (the cache identifies them by design)",
+    "rotations: the 48 of O_h, the 24 of D_6h, 12 generic ones (+identity) and the 'near' family (6 quick / 11 thorough: pairs of "
+    "distinct rotations 3e-3..6e-3 rad apart); 'all rotations in O(3)' is represented by these (the matrices are polynomial in the "
+    "entries of R, the generic elements test the polynomial, the groups test every crystallographic value, the near pairs test that "
+    "the rotator's cache does not identify resolved rotations)",
+    "rotations closer than the cache tolerance of OrbitalRotator (element-wise 1e-4, i.e. angles below ~1e-4 rad) are not in the "
+    "alphabet (the cache identifies them by design); the closest distinct pair in the alphabets is 3e-3 rad apart, and the harness "
+    "verifies that every rotation and every product sent to a rotator is either equal (<1e-9) to, or element-wise > 3e-4 away from, "
+    "every other one (so no verdict depends on which side of the tolerance a rotation falls); pairs between 1e-4 and 3e-3 rad are "
+    "not enumerated",
+    "evaluation orders through one rotator: the listed order and (generic/near families) the reverse order through a fresh rotator; "
+    "other permutations are not enumerated",
+    "Dwann local frames: global frame, one custom frame shared by all sites (rotate_basis=False with zaxis/xaxis: axis permutations, "
+    "a 45-degree frame, a cube diagonal, one generic direction), custom frame on single-site orbits, site-co-rotated frames, and "
+    "explicit basis_list tilted by 3e-3 rad x (site index + 1) about one generic axis; other frames are not enumerated",
     "orbital sets not closed under an operation have no representation matrix: only absence of an exception is required",
     "composition for all ordered pairs inside each family (products stay in the family for O_h and D_6h); mixed O_h x D_6h "
     "products are covered by the per-matrix reference only",
     "Dwann: 6 structures built with irrep/spglib (trusted as the environment: rotation, translation, time_reversal, "
     "spinor_rotation of each operation); the spinor factor is compared with the documented formula S -> [[0,1],[-1,0]] S* for "
     "time-reversed operations",
-    "quick tier: f shell only on O_h/generic families (not in local/dwann cases), fewer generic rotations",
+    "quick tier: f shell only on O_h/generic families (not in near/local/dwann cases), fewer generic rotations, near family of 6 "
+    "rotations and without the shells sp3d2 and sp3;eg (their blocks d, eg, sp3 are in), fewer custom-frame Dwann sets",
 ]
 
 TOL = 1e-9
@@ -192,7 +217,38 @@ def family(name):
         if name == "gen5":
             return [("1", np.eye(3))] + prop[:3] + [("-" + prop[3][0], -prop[3][1])]
         return [("1", np.eye(3))] + prop + [("-" + l, -R) for l, R in prop]
+    if name in ("near6", "near11"):
+        # pairs of distinct rotations NEAR_MIN..NEAR_MAX rad apart (element-wise difference ~30x the cache tolerance 1e-4)
+        a1, a2, a3, a4 = [0.3, 0.5, -0.7], [1.0, -0.2, 0.4], [-0.6, 0.1, 0.9], [0.2, 0.9, 0.3]
+        z = [0, 0, 1]
+        R0, R2 = axis_angle(a1, 0.70), axis_angle(a2, 2.1)
+        fam = [("1", np.eye(3)), ("z_0.004", axis_angle(z, 0.004)),
+               ("a1_0.70", R0), ("a1_0.70*a3_0.005", R0 @ axis_angle(a3, 0.005)),
+               ("-a2_2.1", -R2), ("-a2_2.1*a4_0.003", -R2 @ axis_angle(a4, 0.003))]
+        if name == "near11":
+            fam += [("a1_0.703", axis_angle(a1, 0.703)), ("a1_0.70*z_0.003", R0 @ axis_angle(z, 0.003)),
+                    ("a1_0.70*z_0.006", R0 @ axis_angle(z, 0.006)), ("-1", -np.eye(3)), ("-z_0.006", -axis_angle(z, 0.006))]
+        return fam
     raise KeyError(name)
+
+
+# the library identifies two rotations when np.allclose(R1, R2, atol=1e-4) (element-wise, rtol 1e-5): everything the harness sends to
+# one rotator must be either the same rotation (SAME) or clearly resolved (RESOLVED), never in between
+SAME, RESOLVED = 1e-9, 3e-4
+NEAR_MIN, NEAR_MAX = 3e-3, 1e-2        # angle between the members of a "near" pair
+
+
+def rotation_angle_between(R1, R2):
+    c = (np.trace(R1.T @ R2) - 1) / 2
+    return float(np.arccos(np.clip(c, -1, 1)))
+
+
+def ambiguous_pair(mats):
+    """first pair (i, j) of `mats` whose element-wise distance lies between SAME and RESOLVED, or None"""
+    M = np.array(mats)
+    d = np.abs(M[:, None] - M[None, :]).max(axis=(2, 3))
+    bad = np.argwhere((d > SAME) & (d < RESOLVED))
+    return None if len(bad) == 0 else (int(bad[0][0]), int(bad[0][1]))
 
 
 def local_rotations():
@@ -213,27 +269,54 @@ def frames():
 # ------------------------------------------------------------------------------------------------
 from wbmc.structures import STRUCTURES, get_spacegroup  # noqa: E402
 
-# (structure, site label, seed position, [(orbital, mode)]) ; mode = "same" (one global frame), "rot" (rotate_basis=True),
-# "rot:z=..." local z axis given (rotate_basis=True)
+# (structure, site label, seed position, [(orbital, mode)]) ; frame mode =
+#   "same"            the global frame on every site (rotate_basis=False, default axes)
+#   "same:z=..:x=.."  one custom frame shared by all sites (rotate_basis=False with zaxis/xaxis)
+#   "rot"             frames co-rotated with the sites (rotate_basis=True), default axes on the first site
+#   "rot:z=..:x=.."   the same with custom axes on the first site (on a single-site orbit: one custom frame)
+#   "tilt"            explicit basis_list: site ip has the global frame turned by TILT_STEP*(ip+1) about TILT_AXIS, so that the
+#                     rotations B2 R B1^T of one operation seen from different sites are distinct but only a few 1e-3 rad apart
 DWANN_SITES = [
     ("sc1", "1a", [0, 0, 0], [("_", "same"), ("s", "same"), ("p", "same"), ("d", "same"), ("sp3d2", "same"), ("t2g", "same"),
-                              ("eg", "same"), ("s;p", "same"), ("sp3", "same"), ("f", "same")]),
+                              ("eg", "same"), ("s;p", "same"), ("sp3", "same"), ("f", "same"),
+                              ("t2g", "rot:z=1,0,0:x=0,1,0"), ("eg", "same:z=1,0,0:x=0,1,0"), ("p", "rot:z=1,1,1"),
+                              ("d", "same:z=1,1,0:x=0,0,1"), ("sp3", "same:z=0.2,-0.7,0.4")]),
     ("sc1", "3d", [0.5, 0, 0], [("_", "same"), ("p", "same"), ("pz", "same"), ("pz", "rot:z=1,0,0:x=0,1,0"), ("pxy", "rot:z=1,0,0:x=0,1,0"),
-                                ("d", "rot")]),
+                                ("d", "rot"),
+                                ("p", "same:z=1,1,1"), ("t2g", "same:z=1,0,0:x=0,1,0"), ("pz", "same:z=1,0,0:x=0,1,0"),
+                                ("eg", "same:z=0,1,0:x=0,0,1"), ("d", "same:z=1,1,1"), ("p", "tilt")]),
     ("sc1", "8g", [0.25, 0.25, 0.25], [("s", "same"), ("p", "rot"), ("pz", "rot:z=1,1,1")]),
     ("bcc_mag", "2a", [0, 0, 0], [("s", "same"), ("p", "same"), ("pz", "same"), ("pxy", "same"), ("d", "same"), ("t2g", "same"),
-                                  ("eg", "same"), ("sp3d2", "same"), ("f", "same")]),
+                                  ("eg", "same"), ("sp3d2", "same"), ("f", "same"),
+                                  ("pxy", "rot:z=0,0,1:x=1,1,0"), ("eg", "same:z=0,0,1:x=1,1,0"), ("d", "rot:z=0,0,1:x=1,1,0")]),
     ("hcp", "2c", [1 / 3, 2 / 3, 0], [("_", "same"), ("s", "same"), ("p", "same"), ("pz", "same"), ("pxy", "same"), ("sp2", "same"),
-                                      ("sp2", "rot"), ("d", "same"), ("p2", "same")]),
-    ("hcp", "2a", [0, 0, 0], [("s", "same"), ("p", "rot"), ("pz", "same")]),
-    ("zb", "4a", [0, 0, 0], [("s", "same"), ("p", "same"), ("sp3", "same"), ("d", "same"), ("t2g", "same"), ("eg", "same")]),
+                                      ("sp2", "rot"), ("d", "same"), ("p2", "same"),
+                                      ("pxy", "same:z=0,0,1:x=0,1,0"), ("sp2", "same:z=0,0,1:x=0,1,0"), ("p", "tilt"),
+                                      ("p", "same:z=0.2,-0.7,0.4"), ("d", "same:z=0,0,1:x=0,1,0")]),
+    ("hcp", "2a", [0, 0, 0], [("s", "same"), ("p", "rot"), ("pz", "same"), ("pxy", "same:z=0,0,1:x=1,1,0"), ("p", "tilt")]),
+    ("zb", "4a", [0, 0, 0], [("s", "same"), ("p", "same"), ("sp3", "same"), ("d", "same"), ("t2g", "same"), ("eg", "same"),
+                             ("t2g", "rot:z=0,1,0:x=0,0,1")]),
     ("zb", "4c", [.25, .25, .25], [("sp3", "same"), ("p", "same")]),
-    ("diamond", "8a", [0, 0, 0], [("s", "same"), ("sp3", "same"), ("sp3", "rot"), ("p", "same"), ("p", "rot")]),
+    ("diamond", "8a", [0, 0, 0], [("s", "same"), ("sp3", "same"), ("sp3", "rot"), ("p", "same"), ("p", "rot"),
+                                  ("p", "same:z=1,1,1"), ("sp3", "same:z=1,0,0:x=0,1,0"), ("sp3", "tilt")]),
     ("diamond", "16c", [.125, .125, .125], [("s", "same"), ("pz", "rot:z=1,1,1"), ("pz", "same")]),
-    ("mono", "2e", [0.1, 0.25, 0.2], [("s", "same"), ("p", "same"), ("d", "same"), ("p", "rot")]),
-    ("mono", "4f", [0.13, 0.07, 0.31], [("_", "same"), ("s", "same"), ("p", "same"), ("p", "rot")]),
+    ("mono", "2e", [0.1, 0.25, 0.2], [("s", "same"), ("p", "same"), ("d", "same"), ("p", "rot"),
+                                      ("pz", "same:z=0,1,0:x=0,0,1"), ("pxy", "same:z=0,1,0:x=0,0,1"), ("p", "same:z=0.2,-0.7,0.4"),
+                                      ("p", "tilt"), ("d", "tilt")]),
+    ("mono", "4f", [0.13, 0.07, 0.31], [("_", "same"), ("s", "same"), ("p", "same"), ("p", "rot"),
+                                        ("p", "tilt"), ("d", "same:z=0,1,0:x=1,0,0")]),
 ]
 QUICK_SKIP_ORBITALS = {"f"}
+# custom-frame sets left to the thorough tier (each frame mode and each structure keeps at least one set in quick)
+QUICK_SKIP_SETS = {("sc1", "1a", "d", "same:z=1,1,0:x=0,0,1"), ("sc1", "1a", "sp3", "same:z=0.2,-0.7,0.4"),
+                   ("sc1", "3d", "eg", "same:z=0,1,0:x=0,0,1"), ("sc1", "3d", "d", "same:z=1,1,1"),
+                   ("hcp", "2c", "p", "same:z=0.2,-0.7,0.4"), ("hcp", "2c", "d", "same:z=0,0,1:x=0,1,0"),
+                   ("hcp", "2a", "pxy", "same:z=0,0,1:x=1,1,0"), ("diamond", "8a", "sp3", "same:z=1,0,0:x=0,1,0"),
+                   ("mono", "4f", "d", "same:z=0,1,0:x=1,0,0"), ("hcp", "2a", "p", "tilt"), ("sc1", "3d", "p", "tilt"),
+                   ("diamond", "8a", "sp3", "tilt")}
+# (an axis lying almost in a mirror plane of a structure would make two of the rotations B2 R B1^T differ only in second order of the
+#  tilt, ~1e-5, inside the tolerance with which the rotator identifies rotations by design: run_dwann refuses such an alphabet)
+TILT_AXIS, TILT_STEP = [0.2, -0.7, 0.4], 3e-3
 K_DWANN = [(0.1, 0.2, 0.3), (0.5, 0.0, 0.0), (0.0, 0.0, 0.0)]
 G_DWANN = [(0, 0, 0), (1, 0, -1)]
 
@@ -242,11 +325,20 @@ G_DWANN = [(0, 0, 0), (1, 0, -1)]
 # cases
 # ------------------------------------------------------------------------------------------------
 
+NEAR_QUICK_SKIP_SHELLS = {"f", "sp3d2", "sp3;eg"}
+
+
+def families(tier):
+    return ("gen5", "near6", "D6h", "Oh") if tier == "quick" else ("gen13", "near11", "D6h", "Oh")
+
+
 def cases(tier, seed):
     shells = BASIS_SHELLS + HYBRIDS + JOINED
-    for fam in ("gen5" if tier == "quick" else "gen13", "D6h", "Oh"):
+    for fam in families(tier):
         for sh in shells:
             if tier == "quick" and sh == "f" and fam == "D6h":
+                continue
+            if tier == "quick" and fam == "near6" and sh in NEAR_QUICK_SKIP_SHELLS:
                 continue
             yield {"kind": "family", "shell": sh, "family": fam}
     local_shells = ["s", "p", "pz", "pxy", "p2", "sp", "sp2", "sp3", "eg", "t2g", "d", "s;p"]
@@ -257,7 +349,7 @@ def cases(tier, seed):
         yield {"kind": "local", "shell": sh, "compose": sh in cheap}
     for st, site, pos, orbs in DWANN_SITES:
         for orb, mode in orbs:
-            if tier == "quick" and orb in QUICK_SKIP_ORBITALS:
+            if tier == "quick" and (orb in QUICK_SKIP_ORBITALS or (st, site, orb, mode) in QUICK_SKIP_SETS):
                 continue
             for spinor in (False, True):
                 yield {"kind": "dwann", "structure": st, "site": site, "position": pos, "orbital": orb, "mode": mode,
@@ -268,33 +360,94 @@ def cases(tier, seed):
 # kind: family
 # ------------------------------------------------------------------------------------------------
 
+BOTH_ORDERS = ("gen5", "gen13", "near6", "near11")
+
+
+def stale_answer(a, R, expected, previous):
+    """(only used to name a failure) label of a rotation evaluated before through the same rotator that is resolved from R
+    (element-wise > RESOLVED) and has a different expected matrix, but whose returned matrix is what the rotator answered now for R;
+    None if there is no such rotation.  previous = [(label, rotation, returned matrix, expected matrix)]"""
+    for lab, Rp, ap, ep in previous:
+        if (np.abs(Rp - R).max() > RESOLVED and ap.shape == a.shape and np.abs(ap - a).max() < 1e-13
+                and np.abs(ep - expected).max() > 1e-6):
+            return lab
+    return None
+
+
 def run_family(case):
     from wannierberri.symmetry.orbitals import OrbitalRotator, num_orbitals
     sh, famname = case["shell"], case["family"]
     fam = family(famname)
     n = len(fam)
-    rot = OrbitalRotator()
     norb = num_orbitals(sh)
-    A, Aref, closed = [], [], []
+    # --- the alphabet itself: nothing that goes through a rotator may sit in the tolerance band of the cache
+    # (the products of O_h and D_6h are members of the family, up to rounding)
+    if famname in BOTH_ORDERS:
+        products = [fam[g1][1] @ fam[g2][1] for g1 in range(n) for g2 in range(n)]
+        amb = ambiguous_pair([R for _, R in fam] + products)
+        if amb is not None:
+            return {"ok": False, "key": "harness:rotations_in_cache_tolerance_band", "detail": f"family {famname}: items {amb}"}
+    near_pairs = 0
+    if famname.startswith("near"):
+        ang = [[rotation_angle_between(fam[i][1], fam[j][1]) for j in range(n)] for i in range(n)]
+        for i in range(n):
+            nb = [j for j in range(n) if j != i and np.linalg.det(fam[i][1]) * np.linalg.det(fam[j][1]) > 0 and ang[i][j] < NEAR_MAX]
+            if not nb or min(ang[i][j] for j in nb) < NEAR_MIN * (1 - 1e-9):
+                return {"ok": False, "key": "harness:near_family",
+                        "detail": f"family {famname}: {fam[i][0]} has no neighbour {NEAR_MIN}..{NEAR_MAX} rad away"}
+            near_pairs += len(nb)
+        near_pairs //= 2
+    Aref, closed = [], []
     for lab, R in fam:
-        a = np.array(rot(sh, rot_cart=R.copy()))
-        A.append(a)
         ar, res = ref_matrix(sh, R)
         Aref.append(ar)
         closed.append(res < CLOSED)
-        where = f"shell={sh!r} rotation={lab} (family {famname}) det={np.linalg.det(R):+.0f}"
-        if a.shape != (norb, norb) or not np.all(np.isfinite(a)):
-            return {"ok": False, "key": f"OrbitalRotator:shape:{sh.strip()}", "detail": where + f" shape {a.shape}"}
-        if not closed[-1]:
-            continue
-        if np.abs(a - ar).max() > TOL:
-            i, j = np.unravel_index(np.abs(a - ar).argmax(), a.shape)
-            return {"ok": False, "key": f"rot_orb:differs_from_reference:{shell_key(sh)}",
-                    "detail": where + f" max |A_code-A_ref|={np.abs(a - ar).max():.3e} at ({i},{j}): code {a[i, j]:.6f} ref {ar[i, j]:.6f}"}
-        if np.abs(a.T @ a - np.eye(norb)).max() > TOL:
-            return {"ok": False, "key": f"rot_orb:not_orthogonal:{shell_key(sh)}", "detail": where}
+
+    def one_pass(rot, order):
+        """all rotations of the family through `rot` in the given order, each against the reference"""
+        out = {}
+        previous = []
+        for g in order:
+            lab, R = fam[g]
+            a = np.array(rot(sh, rot_cart=R.copy()))
+            where = f"shell={sh!r} rotation={lab} (family {famname}, order {'listed' if order[0] == 0 else 'reversed'}) det={np.linalg.det(R):+.0f}"
+            if a.shape != (norb, norb) or not np.all(np.isfinite(a)):
+                return None, {"ok": False, "key": f"OrbitalRotator:shape:{sh.strip()}", "detail": where + f" shape {a.shape}"}
+            out[g] = a
+            if closed[g]:
+                ar = Aref[g]
+                if np.abs(a - ar).max() > TOL:
+                    i, j = np.unravel_index(np.abs(a - ar).argmax(), a.shape)
+                    msg = where + (f" max |A_code-A_ref|={np.abs(a - ar).max():.3e} at ({i},{j}): code {a[i, j]:.6f} "
+                                   f"ref {ar[i, j]:.6f}")
+                    stale = stale_answer(a, R, ar, previous)
+                    if stale is not None:
+                        return None, {"ok": False, "key": "OrbitalRotator:cache_merges_distinct_rotations",
+                                      "detail": msg + f"; it is the matrix of rotation {stale}, evaluated before, which is "
+                                                      f"{rotation_angle_between(R, dict(fam)[stale]):.2e} rad away"}
+                    return None, {"ok": False, "key": f"rot_orb:differs_from_reference:{shell_key(sh)}", "detail": msg}
+                if np.abs(a.T @ a - np.eye(norb)).max() > TOL:
+                    return None, {"ok": False, "key": f"rot_orb:not_orthogonal:{shell_key(sh)}", "detail": where}
+            previous.append((lab, R, a, Aref[g] if closed[g] else a))
+        return out, None
+
+    rot = OrbitalRotator()
+    A, bad = one_pass(rot, list(range(n)))
+    if bad:
+        return bad
+    A = [A[g] for g in range(n)]
     if not closed[0] or np.abs(A[0] - np.eye(norb)).max() > TOL:
         return {"ok": False, "key": f"rot_orb:identity:{shell_key(sh)}", "detail": f"shell={sh!r}: A(1) != 1"}
+    # the other order through a fresh rotator (generic and near families)
+    if famname in BOTH_ORDERS:
+        B, bad = one_pass(OrbitalRotator(), list(range(n - 1, -1, -1)))
+        if bad:
+            return bad
+        for g in range(n):
+            if closed[g] and np.abs(B[g] - A[g]).max() > TOL:
+                return {"ok": False, "key": "OrbitalRotator:cache_history_dependent",
+                        "detail": f"shell={sh!r} rotation={fam[g][0]} (family {famname}): listed and reversed order differ by "
+                                  f"{np.abs(B[g] - A[g]).max():.3e}"}
     # cache: same answers in reverse order and through irot
     for g in range(n - 1, -1, -1):
         b = np.array(rot(sh, rot_cart=fam[g][1].copy()))
@@ -312,6 +465,7 @@ def run_family(case):
                 "detail": f"shell={sh!r} family {famname}: {n} distinct rotations stored as {len(rot.calcualted_matrices)}"}
     # composition law, all ordered pairs
     npairs = 0
+    asked = [(lab, R, A[g], A[g]) for g, (lab, R) in enumerate(fam)]
     for g1 in range(n):
         for g2 in range(n):
             if not (closed[g1] and closed[g2]):
@@ -320,12 +474,18 @@ def run_family(case):
             c = np.array(rot(sh, rot_cart=R12))
             npairs += 1
             if np.abs(c - A[g1] @ A[g2]).max() > TOL:
-                return {"ok": False, "key": f"rot_orb:composition:{shell_key(sh)}",
-                        "detail": f"shell={sh!r} A({fam[g1][0]}*{fam[g2][0]}) != A({fam[g1][0]}) A({fam[g2][0]}): "
-                                  f"{np.abs(c - A[g1] @ A[g2]).max():.3e}"}
+                msg = (f"shell={sh!r} A({fam[g1][0]}*{fam[g2][0]}) != A({fam[g1][0]}) A({fam[g2][0]}): "
+                       f"{np.abs(c - A[g1] @ A[g2]).max():.3e}")
+                stale = stale_answer(c, R12, A[g1] @ A[g2], asked)
+                if stale is not None:
+                    return {"ok": False, "key": "OrbitalRotator:cache_merges_distinct_rotations",
+                            "detail": msg + f"; the product was answered with the matrix of {stale}, evaluated before"}
+                return {"ok": False, "key": f"rot_orb:composition:{shell_key(sh)}", "detail": msg}
+            asked.append((f"{fam[g1][0]}*{fam[g2][0]}", R12, c, c))
     nclosed = sum(closed[1:])
     return {"ok": True, "nontrivial": ((sh.strip(), famname) if nclosed else False),
-            "obs": {"rotations": n, "closed": int(sum(closed)), "pairs": npairs}}
+            "obs": {"rotations": n, "closed": int(sum(closed)), "pairs": npairs, "near_pairs": near_pairs,
+                    "orders": 2 if famname in BOTH_ORDERS else 1}}
 
 
 def shell_key(sh):
@@ -407,19 +567,27 @@ def run_dwann(case):
     L = np.array(STRUCTURES[st]["lattice"], dtype=float)
     pos0 = np.array(case["position"], dtype=float)
     where = f"structure={st} site={case['site']}{case['position']} orbital={orb!r} mode={mode} spinor={spinor}"
-    kw = {}
-    if mode.startswith("rot:z="):
-        ax = dict(a.split("=") for a in mode[4:].split(":"))
-        kw = dict(rotate_basis=True, zaxis=[float(x) for x in ax["z"].split(",")])
+    base, _, axes = mode.partition(":")
+    if base not in ("same", "rot", "tilt") or (base == "tilt" and axes):
+        return {"ok": False, "key": "harness:frame_mode", "detail": where}
+    kw = dict(rotate_basis=(base == "rot"))
+    if axes:
+        ax = dict(a.split("=") for a in axes.split(":"))
+        kw["zaxis"] = [float(x) for x in ax["z"].split(",")]
         if "x" in ax:
             kw["xaxis"] = [float(x) for x in ax["x"].split(",")]
-    elif mode == "rot":
-        kw = dict(rotate_basis=True)
-    else:
-        kw = dict(rotate_basis=False)
     proj = Projection(position_num=[pos0], orbital=("s" if orb == "_" else orb), spacegroup=sg, do_not_split_projections=True, **kw)
+    if base == "tilt":
+        # explicit frames, slightly different on every site: all positions of the orbit are given, in the order found above
+        tilted = [axis_angle(TILT_AXIS, TILT_STEP * (ip + 1)) for ip in range(len(proj.positions))]
+        proj = Projection(position_num=np.array(proj.positions, dtype=float), orbital=orb, spacegroup=sg,
+                          do_not_split_projections=True, basis_list=[b.copy() for b in tilted])
+        if len(proj.basis_list) != len(tilted) or any(np.abs(np.array(b) - t).max() > 0 for b, t in zip(proj.basis_list, tilted)):
+            return {"ok": False, "key": "Projection:basis_list_not_kept", "detail": where}
     positions = np.array(proj.positions, dtype=float)
     basis_list = [np.array(b, dtype=float) for b in proj.basis_list]
+    common_frame = all(np.abs(b - basis_list[0]).max() < 1e-12 for b in basis_list)
+    custom_frame = bool(np.abs(basis_list[0] - np.eye(3)).max() > 1e-6)
     for b in basis_list:
         if np.abs(b @ b.T - np.eye(3)).max() > 1e-9:
             return {"ok": False, "key": "Projection:basis_not_orthogonal", "detail": where}
@@ -452,6 +620,7 @@ def run_dwann(case):
     allclosed = True
     blocks = {}
     Aref_cache = {}
+    sent = {}          # the distinct rotations B2 R B1^T that Dwann asks its rotator for
     for isym, (W, t, TR) in enumerate(ops):
         Rc = L.T @ W @ Linv_T
         if np.abs(Rc @ Rc.T - np.eye(3)).max() > 1e-8:
@@ -480,13 +649,28 @@ def run_dwann(case):
             if orb == "_":
                 A, res = np.eye(1), 0.0
             else:
-                ck = (isym, ip) if mode != "same" else (element_key(Rc),)
+                ck = (element_key(Rc),) if common_frame else (isym, ip)
                 if ck not in Aref_cache:
                     Aref_cache[ck] = ref_matrix(orb, Rc, basis_list[ip], basis_list[jp])
                 A, res = Aref_cache[ck]
+                Rloc = basis_list[jp] @ Rc @ basis_list[ip].T
+                sent.setdefault(element_key(Rloc), Rloc)
             if res >= CLOSED:
                 allclosed = False
             blocks[(ip, isym)] = (np.kron(A, S) if spinor else A.astype(complex), res < CLOSED)
+    # --- the alphabet itself: no two rotations of this case may sit in the tolerance band of the rotator's cache
+    sent = list(sent.values())
+    near_pairs = 0
+    if sent:
+        amb = ambiguous_pair(sent)
+        if amb is not None:
+            return {"ok": False, "key": "harness:rotations_in_cache_tolerance_band", "detail": where + f" items {amb}"}
+        if base == "tilt":
+            near_pairs = sum(1 for i in range(len(sent)) for j in range(i) if np.abs(sent[i] - sent[j]).max() > RESOLVED
+                             and np.linalg.det(sent[i]) * np.linalg.det(sent[j]) > 0
+                             and rotation_angle_between(sent[i], sent[j]) < NEAR_MAX)
+            if near_pairs == 0:
+                return {"ok": False, "key": "harness:tilt_mode_without_near_pairs", "detail": where}
     # --- matrices on k-points
     nchecked = 0
     prodtab = None
@@ -564,6 +748,8 @@ def run_dwann(case):
     nt = allclosed and (npnt > 1 or nsym > 1)
     return {"ok": True, "nontrivial": ((st, case["site"], orb, mode, spinor) if nt else False),
             "obs": {"orbit": npnt, "nsym": nsym, "all_closed": bool(allclosed), "blocks_checked": nchecked,
+                    "frames": ("common" if common_frame else "per_site") + ("_custom" if custom_frame else "_global"),
+                    "distinct_local_rotations": len(sent), "near_pairs": near_pairs,
                     "translations_nonzero": int(np.any(Tref != 0))}}
 
 
@@ -590,9 +776,20 @@ def run_case(case, seed):
 def finish(tier, cases, results):
     fam = [r.get("obs", {}) for c, r in zip(cases, results) if c["kind"] == "family"]
     dw = [r.get("obs", {}) for c, r in zip(cases, results) if c["kind"] == "dwann"]
-    return {"axes": {"shells": len(BASIS_SHELLS + HYBRIDS + JOINED), "families": {f: len(family(f)) for f in ("Oh", "D6h", "gen5" if tier == "quick" else "gen13")},
+    dwc = [c for c in cases if c["kind"] == "dwann"]
+    modes = {}
+    for c, o in zip(dwc, dw):
+        k = c["mode"].partition(":")[0] + (":<axes>" if ":" in c["mode"] else "")
+        modes[k] = modes.get(k, 0) + 1
+    shared_custom = sum(1 for o in dw if o.get("frames") == "common_custom")
+    return {"axes": {"shells": len(BASIS_SHELLS + HYBRIDS + JOINED), "families": {f: len(family(f)) for f in families(tier)},
                      "local_rotations": 8, "frames": 3, "structures": len(STRUCTURES),
-                     "dwann_site_orbital_sets": sum(len(o) for *_, o in DWANN_SITES)},
+                     "dwann_site_orbital_sets": len(dwc) // 2, "dwann_cases_per_frame_mode": modes},
+            "dwann_cases_one_custom_frame_on_all_sites": int(shared_custom),
+            "dwann_cases_one_custom_frame_multi_site_orbit": int(sum(1 for o in dw if o.get("frames") == "common_custom"
+                                                                     and o.get("orbit", 1) > 1)),
+            "near_rotation_pairs_in_families": int(sum(o.get("near_pairs", 0) for o in fam)),
+            "near_rotation_pairs_in_dwann_tilt_cases": int(sum(o.get("near_pairs", 0) for o in dw)),
             "rotation_matrices_vs_reference": int(sum(o.get("closed", 0) for o in fam)),
             "composition_pairs": int(sum(o.get("pairs", 0) for o in fam)),
             "dwann_blocks_checked": int(sum(o.get("blocks_checked", 0) for o in dw)),
